@@ -336,6 +336,8 @@ class Reader:
         # chunk-local byte buffers whose content was not handed to applicationDataReceived before the call returned
         delivered = b"".join(e[1] for e in self.events[n0:] if e[0] == "app")
         for k, v in it.loc.items():
+            if isinstance(v, bytearray) and v:
+                v = [bytes(v)]
             if isinstance(v, list) and v and all(isinstance(x, bytes) for x in v):
                 pending = b"".join(v)
                 if pending and not delivered.endswith(pending) and id(v) not in self.passed:
@@ -668,10 +670,22 @@ def check(ctx):
                     parser.add(name)
                     changed = True
         handled = set()
+
+        def state_reader(f):
+            """predicate: the expression is the parse state - self.state or a local whose every definition in f is `<local> = self.state`"""
+            defs = {}
+            for x in ast.walk(f):
+                if isinstance(x, ast.Name) and isinstance(x.ctx, (ast.Store, ast.Del)):
+                    par = getattr(x, "_parent", None)
+                    ok = isinstance(par, ast.Assign) and len(par.targets) == 1 and par.targets[0] is x and self_attr(par.value, "state")
+                    defs[x.id] = defs.get(x.id, True) and ok
+            aliases = {k for k, v in defs.items() if v}
+            return lambda e: self_attr(e, "state") or (isinstance(e, ast.Name) and e.id in aliases)
         for name in parser:
             for cls, f in allm.get(name, []):
+                is_state = state_reader(f)
                 for n in ast.walk(f):
-                    if isinstance(n, ast.Compare) and len(n.ops) == 1 and isinstance(n.ops[0], (ast.Eq, ast.NotEq)) and self_attr(n.left, "state") \
+                    if isinstance(n, ast.Compare) and len(n.ops) == 1 and isinstance(n.ops[0], (ast.Eq, ast.NotEq)) and is_state(n.left) \
                             and isinstance(n.comparators[0], ast.Constant):
                         handled.add(n.comparators[0].value)
                     # dispatch through a table indexed by the state: its keys are the states that have a handler
@@ -707,13 +721,25 @@ def check(ctx):
         ctx.need(len(byte_loops) == 1, "the parser's loop `for b in iterbytes(<chunk>)`")
         pname, pfn, loop_ = byte_loops[0]
         stored_in_loop = {x.id for x in ast.walk(loop_) if isinstance(x, ast.Name) and isinstance(x.ctx, ast.Store)}
+        # the chunk-local accumulator of decoded bytes is not parser state: a local set to an empty container before the loop which the loop only
+        # extends (`+=`) or empties again (whether it is flushed is the business of reader/flush-at-chunk-end)
+
+        def empty_container(e):
+            return (isinstance(e, (ast.List, ast.Tuple)) and not e.elts) or (isinstance(e, ast.Constant) and e.value in (b"", "")) \
+                or (isinstance(e, ast.Call) and isinstance(e.func, ast.Name) and e.func.id in ("bytearray", "list", "bytes") and not e.args and not e.keywords)
+        pre_init = {t.id for st in pfn.body if isinstance(st, ast.Assign) and st.lineno < loop_.lineno and empty_container(st.value) for t in st.targets if isinstance(t, ast.Name)}
+        for nm in sorted(pre_init & stored_in_loop):
+            stores_ = [x for x in ast.walk(loop_) if isinstance(x, ast.Name) and x.id == nm and isinstance(x.ctx, ast.Store)]
+            if all((isinstance(x._parent, ast.AugAssign) and isinstance(x._parent.op, ast.Add)) or (isinstance(x._parent, ast.Assign) and empty_container(x._parent.value)) for x in stores_):
+                stored_in_loop.discard(nm)
         loop_vars = {x.id for x in ast.walk(loop_.target) if isinstance(x, ast.Name)}
-        chain_ = [st for st in loop_.body if isinstance(st, ast.If) and any(self_attr(x, "state") for x in ast.walk(st.test))]
+        is_state_p = state_reader(pfn)
+        chain_ = [st for st in loop_.body if isinstance(st, ast.If) and any(is_state_p(x) for x in ast.walk(st.test))]
         branches = []       # (label, statements, names bound on entry)
         for node_ in chain_:
             while True:
                 t_ = node_.test
-                label = t_.comparators[0].value if isinstance(t_, ast.Compare) and self_attr(t_.left, "state") and isinstance(t_.comparators[0], ast.Constant) else src(t_)[:30]
+                label = t_.comparators[0].value if isinstance(t_, ast.Compare) and is_state_p(t_.left) and isinstance(t_.comparators[0], ast.Constant) else src(t_)[:30]
                 branches.append((label, node_.body, set()))
                 if len(node_.orelse) == 1 and isinstance(node_.orelse[0], ast.If):
                     node_ = node_.orelse[0]
